@@ -116,7 +116,8 @@ def _impact_app(nx):
     class Impact(Application):
         def create_particles(self):
             rng = np.random.RandomState(4321)
-            x, y = np.mgrid[0:1.0:dx, 0:0.5:dx]
+            # (taller than wide: more cells along y than along x)
+            x, y = np.mgrid[0:0.5:dx, 0:1.0:dx]
             x = x.ravel() + 0.1*dx*(rng.random_sample(x.size) - 0.5)
             # lowest fluid row 0.3 dx outside the support (2 h = 2.4 dx) of the top bed row at y = 0
             y = y.ravel() + 2.7*dx + 0.05*dx*rng.random_sample(y.size)
@@ -128,7 +129,7 @@ def _impact_app(nx):
             hf[:nx] *= 1.6
             mf[:nx] *= 2.0
             fluid = get_particle_array_wcsph(name='fluid', x=x, y=y, m=mf, h=hf, rho=np.ones_like(x)*rho0, v=-np.ones_like(x))
-            bx, by = np.mgrid[-dx:1.0 + dx:dx, -2*dx:dx/2:dx]
+            bx, by = np.mgrid[-dx:0.5 + dx:dx, -2*dx:dx/2:dx]
             bx, by = bx.ravel(), by.ravel()
             bed = get_particle_array_wcsph(name='bed', x=bx, y=by, m=np.ones_like(bx)*dx*dx*rho0, h=np.ones_like(bx)*hdx*dx,
                                            rho=np.ones_like(bx)*rho0)
